@@ -346,13 +346,13 @@ Definition goqu_limit_of (limit : option Z) (maxLimit : Z) : option Z :=
   let l := eff_limit limit maxLimit in
   if g_sql_has_limit l NoLimit then (if 0 <? l then Some l else None) else None.
 
-(* MODEL-F7 begin — the LIMIT of a filter's sub-select in buildEventQuery.
-   Pinned tree: just appendLimitQuery, so `limit: 0` returns every matching
-   row (defect F7).  After the repair (`if f.Limit != nil && *f.Limit == 0
-   { sub = sub.Where(goqu.L("0")) }`) this definition is replaced by
-   /verif/fixed/sql/apply_after_fix.py. *)
+(* MODEL-F7 begin — the LIMIT of a filter's sub-select in buildEventQuery:
+   appendLimitQuery, and (the repair of F7)
+       if f.Limit != nil && *f.Limit == 0 { sub = sub.Where(goqu.L("0")) }
+   a WHERE 0 selects no row, which is what LIMIT 0 means. *)
 Definition sub_limit_of (limit : option Z) (maxLimit : Z) : option Z :=
-  goqu_limit_of limit maxLimit.
+  if g_sql_limit0_empty (isSome limit) (match limit with Some l => l | None => 0 end)
+  then Some 0 else goqu_limit_of limit maxLimit.
 (* MODEL-F7 end *)
 
 Fixpoint firstnZ {A} (l : Z) (rows : list A) : list A :=
